@@ -45,6 +45,13 @@ theorem PInv_step {s s' : State} {e : Event} (hi : PInv s) (h : step? s e = some
   case writeStep k => exact PInv_stepWriteStep hi h
   case appFlush a => exact PInv_stepAppFlush hi h
   case appDrop a b c => exact PInv_stepAppDrop hi h
+  case wtake => exact PInv_stepWTake hi h
+  case wdo => exact PInv_stepWDo hi h
+  case wblock => exact PInv_stepWBlock hi h
+  case txWindow l => cases h; exact PInv_of_same (s := s) rfl rfl rfl rfl rfl rfl (fun k => frSame_refl _) hi
+  case flushStep k => exact PInv_stepFlushStep hi h
+  case cancelWrite k => exact PInv_stepCancelWrite hi h
+  case cancelFlush k => exact PInv_stepCancelFlush hi h
 
 theorem PInv_reachable {s : State} (h : Reachable s) : PInv s :=
   reachable_inv (P := PInv) PInv_init (fun _ _ _ hi hs => PInv_step hi hs) h
